@@ -107,6 +107,9 @@ func randKey(r *rng) []byte {
 func tmplP2PK(r *rng) []byte { return append(pushOf(randKey(r)), 0xac) }
 func tmplMultisig(r *rng) []byte {
 	n := 1 + r.n(5)
+	if r.chance(30) {
+		n = 1 + r.n(16) // up to OP_16
+	}
 	m := r.n(n + 1)
 	opn := func(k int) byte {
 		if k == 0 {
@@ -164,6 +167,22 @@ func genC14(e *emitter, tier string, seed uint64) {
 		res := e.run("C14.inspect", h)
 		e.note("kind." + kind)
 		e.note("type." + strings.TrimPrefix(strings.Fields(res)[0], "type="))
+	}
+	// (0) every m-of-n bare multisig with 0 <= m <= n <= 16 (OP_0 and OP_1..OP_16 as the count opcodes)
+	for n := 1; n <= 16; n++ {
+		for m := 0; m <= n; m++ {
+			opn := func(k int) byte {
+				if k == 0 {
+					return 0
+				}
+				return byte(0x50 + k)
+			}
+			sc := []byte{opn(m)}
+			for i := 0; i < n; i++ {
+				sc = append(sc, pushOf(randKey(r))...)
+			}
+			ins(append(sc, opn(n), 0xae), "multisig-m-of-n")
+		}
 	}
 	// (1) exhaustive short strings
 	maxLen := 2
